@@ -119,27 +119,7 @@ def snapshot(app, kind):
         finally:
             conn.close()
         return out
-    o, b, s, t = app.orchestrator, app.broker, app.state_backend, app.trigger
-    snap = {
-        "queue": list(b._queue),
-        "status": {k: (v.status, v.runner_id, v.timestamp) for k, v in o.invocation_status_record.items()},
-        "index": {k.value: sorted(v) for k, v in o.status_index.items() if v},
-        "retries": dict(o.invocation_retries),
-        "purge_q": list(o.invocations_to_purge),
-        "hb": dict(o.runner_last_heartbeat), "hb_create": dict(o.runner_creation_time),
-        "svc": (dict(o.runner_last_service_start), dict(o.runner_last_service_end)),
-        "waiting_for": {k: sorted(v) for k, v in o.blocking_control.waiting_for.items() if v},
-        "waited_by": {k: sorted(v) for k, v in o.blocking_control.waited_by.items() if v},
-    }
-    for name, val in vars(s).items():
-        if name in ("app", "invocation_threads", "_runner_context_cache") or name.startswith("__"):
-            continue
-        snap.setdefault("sb." + name, repr(val) if not callable(val) else None)
-    for name, val in vars(t).items():
-        if name in ("app", "_lock") or "lock" in name:
-            continue
-        snap["tr." + name] = repr(val)
-    return snap
+    return mem_snapshot(app)
 
 def install(app):
     pa.pynenc_instance = app
@@ -250,20 +230,21 @@ def queue_get(kind_i, limit, n, missing_mask, multiset_only=False):
         saved = vb.templates
         vb.templates = _Rec()
     outcome = "returned"
-    if kind == "sqlite":
-        # sqlite3/json under tracing raise artefacts: on SQLite the limit is decided by the solver from a finite
-        # domain and the handler runs concretely; the unbounded symbolic limit is explored on the in-memory stack
-        limit = pick(limit, -1, 6)
-        with NoTracing():
-            try:
-                drive(vb.queue_view(None, limit))
-            except Exception as e:
-                outcome = "raised " + type(e).__name__
-    else:
-        try:
-            drive(vb.queue_view(None, limit))
-        except Exception as e:
-            outcome = "raised " + type(e).__name__
+    # only the handler's own control flow is traced (symbolic limit); the component calls it makes run untraced on
+    # concrete ids (sqlite3/json raise artefacts under tracing)
+    def untraced(fn):
+        def w(*a, **k):
+            with NoTracing():
+                return fn(*a, **k)
+        return w
+    with NoTracing():
+        for comp, names in ((app.broker, ("retrieve_invocation", "route_invocation", "count_invocations")), (app.state_backend, ("get_invocation",))):
+            for nm in names:
+                setattr(comp, nm, untraced(getattr(comp, nm)))
+    try:
+        drive(vb.queue_view(None, limit))
+    except Exception as e:
+        outcome = "raised " + type(e).__name__
     with NoTracing():
         vb.templates = saved
         after = queue_list(app, kind)
@@ -278,7 +259,6 @@ def queue_ok(kind_i: int, limit: int, n: int) -> bool:
     """
     pre: 0 <= kind_i <= 1 and 0 <= n <= 4
     pre: limit >= n or limit <= 0
-    pre: kind_i == 0 or -1 <= limit <= 6
     post: _
     """
     kind_i = pick(kind_i, 0, 1); n = pick(n, 0, 4)
@@ -288,7 +268,6 @@ def queue_twin(kind_i: int, limit: int, n: int) -> bool:
     """
     pre: 0 <= kind_i <= 1 and 0 <= n <= 4
     pre: limit >= n or limit <= 0
-    pre: kind_i == 0 or -1 <= limit <= 6
     post: _
     """
     queue_ok(kind_i, limit, n)
@@ -306,7 +285,6 @@ def finding_queue_rotates(kind_i: int, limit: int, n: int) -> bool:
 def queue_never_loses(kind_i: int, limit: int, n: int, mask: int) -> bool:
     """
     pre: 0 <= kind_i <= 1 and 1 <= n <= 3 and 1 <= mask < 8
-    pre: kind_i == 0 or -1 <= limit <= 6
     post: _
     """
     # whatever the limit and whichever records are missing (the page fails): no queued message disappears
@@ -319,7 +297,6 @@ def finding_queue_rotates_on_failure(kind_i: int, limit: int, n: int, mask: int)
     """
     pre: 0 <= kind_i <= 1 and 2 <= n <= 3 and 1 <= mask < 8
     pre: limit >= n
-    pre: kind_i == 0 or limit <= 6
     post: _
     """
     kind_i = pick(kind_i, 0, 1); n = pick(n, 2, 3); mask = pick(mask, 1, 7)
@@ -386,7 +363,7 @@ def run(ctx: Ctx) -> None:
     ctx.ch_batch("c20", src, conds)
     ctx.functions_encoded += ["pynmon.views.broker.queue_view (traced, symbolic limit)"] + [f"pynmon.views.{n} (parameters decided by the solver, handler + template rendering run concretely)" for n in covered]
     ctx.bounds = {
-        "queue_view": "in-memory stack: limit is an unbounded symbolic int (handler traced); SQLite stack: limit in -1..6 (handler concrete); queue length 0..4; missing-record subsets",
+        "queue_view": "limit: unbounded symbolic int through the traced handler (its component calls run untraced on concrete ids); queue length 0..4; missing-record subsets; both backends",
         "other handlers": "every GET route of the view routers x 5 prepared states (empty, mixed, long queue, state backend purged, failed+waiting) x 7x7 parameter choices from adversarial domains (existing/missing/malformed ids, limits -1..1e6) x 2 backends",
     }
     ctx.stubs += ["handler coroutines driven with send(None) (they never await)", "queue_view: templates.TemplateResponse replaced by a recorder; other handlers render the real templates",
